@@ -577,6 +577,19 @@ where
             T::from_f64(joint.into_scalar().to_f64()).expect("successful conversion from 64 to T");
         let exp1_obs = self.rng.sample(Exp1);
         let logu = joint - exp1_obs;
+        #[cfg(feature = "verif-hooks")]
+        crate::verif_hooks::push(|| {
+            format!(
+                "nuts start m={} eps={} pos={} mom={} joint={} exp1={} logu={}",
+                self.m,
+                crate::verif_hooks::f64_hex(num_traits::ToPrimitive::to_f64(&self.epsilon).unwrap()),
+                crate::verif_hooks::tensor_hex(&self.position),
+                crate::verif_hooks::tensor_hex(&mom_0),
+                crate::verif_hooks::f64_hex(num_traits::ToPrimitive::to_f64(&joint).unwrap()),
+                crate::verif_hooks::f64_hex(num_traits::ToPrimitive::to_f64(&exp1_obs).unwrap()),
+                crate::verif_hooks::f64_hex(num_traits::ToPrimitive::to_f64(&logu).unwrap())
+            )
+        });
 
         let mut position_minus = self.position.clone();
         let mut position_plus = self.position.clone();
@@ -685,9 +698,34 @@ where
                     mom_minus.clone(),
                     mom_plus.clone(),
                 );
+            #[cfg(feature = "verif-hooks")]
+            crate::verif_hooks::push(|| {
+                format!(
+                    "nuts doubling j={} u1={} v={} n_prime={} s_prime={} u2={} n={} s={} pos={}",
+                    j,
+                    crate::verif_hooks::f64_hex(num_traits::ToPrimitive::to_f64(&u_run_1).unwrap()),
+                    v,
+                    n_prime,
+                    s_prime,
+                    crate::verif_hooks::f64_hex(num_traits::ToPrimitive::to_f64(&u_run_2).unwrap()),
+                    n,
+                    s,
+                    crate::verif_hooks::tensor_hex(&self.position)
+                )
+            });
             j += 1
         }
 
+        #[cfg(feature = "verif-hooks")]
+        crate::verif_hooks::push(|| {
+            format!(
+                "nuts end alpha={} n_alpha={} depth={} pos={}",
+                crate::verif_hooks::f64_hex(num_traits::ToPrimitive::to_f64(&alpha).unwrap()),
+                n_alpha,
+                j,
+                crate::verif_hooks::tensor_hex(&self.position)
+            )
+        });
         let mut eta =
             T::one() / T::from(self.m + self.t_0).expect("successful conversion of m + t_0 to T");
         self.h_bar = (T::one() - eta) * self.h_bar
@@ -828,6 +866,17 @@ where
         let grad_plus = grad_prime.clone();
         let alpha_prime = T::min(T::one(), (joint - joint_0).exp());
         let n_alpha_prime = 1_usize;
+        #[cfg(feature = "verif-hooks")]
+        crate::verif_hooks::push(|| {
+            format!(
+                "nuts leaf v={} pos={} mom={} logp={} joint={}",
+                v,
+                crate::verif_hooks::tensor_hex(&position_prime),
+                crate::verif_hooks::tensor_hex(&mom_prime),
+                crate::verif_hooks::tensor_hex(&logp_prime),
+                crate::verif_hooks::f64_hex(num_traits::ToPrimitive::to_f64(&joint).unwrap())
+            )
+        });
         (
             position_minus,
             mom_minus,
@@ -923,6 +972,16 @@ where
             }
 
             let u_build_tree: f64 = (*rng).random::<f64>();
+            #[cfg(feature = "verif-hooks")]
+            crate::verif_hooks::push(|| {
+                format!(
+                    "nuts merge u={} n1={} n2={} s2={}",
+                    crate::verif_hooks::f64_hex(u_build_tree),
+                    n_prime,
+                    n_prime_2,
+                    s_prime_2
+                )
+            });
             if u_build_tree < (n_prime_2 as f64 / (n_prime + n_prime_2).max(1) as f64) {
                 position_prime = position_prime_2;
                 grad_prime = grad_prime_2;
